@@ -60,11 +60,20 @@ CFG = {
         install=True,
     ),
     "isotopes": dict(
-        elements=["e", "H", "D", "T", "He", "He3", "C", "O", "N"],
+        elements=["e", "H", "D", "T", "He", "He3", "C", "O", "N", "13C", "18O", "15N"],  # isotope symbols may start with a digit (tests/test_species.py adds 13C)
         pseudo=["CR", "CRP", "Photon", "o", "p"],
         replacement={},
         kwargs={},
         labels=["o", "p"],
+        install=True,
+    ),
+    "upper-partial": dict(
+        # a partial renaming table: some keys (E, HE) occur inside symbols that are *not* renamed (NE, FE)
+        elements=["E", "H", "D", "HE", "C", "N", "O", "NE", "MG", "SI", "S", "CL", "FE"],
+        pseudo=["CR", "CRP", "PHOTON", "CRPHOT"],
+        replacement={"E": "e", "HE": "He", "MG": "Mg"},
+        kwargs={},
+        labels=[],
         install=True,
     ),
     "upper-norepl": dict(
@@ -88,7 +97,7 @@ def budget(tier):
 
 @st.composite
 def _case(draw):
-    cfg = draw(st.sampled_from(["default", "default", "upper", "leeds", "upper-norepl", "upper-G", "isotopes"]))
+    cfg = draw(st.sampled_from(["default", "default", "upper", "leeds", "upper-norepl", "upper-G", "isotopes", "upper-partial"]))
     c = CFG[cfg]
     kind = draw(st.sampled_from(["mol"] * 8 + ["grain", "electron"]))
     case = {"cfg": cfg, "kind": kind, "tokens": [], "label": "", "surface": False, "group": 0, "charge": 0, "inject": None, "explicit1": []}
@@ -114,6 +123,10 @@ def _case(draw):
         case["explicit1"] = [draw(st.integers(0, 7)) == 0 for _ in toks]  # write the count 1 explicitly
         case["charge"] = draw(st.sampled_from([0, 0, 0, 1, 1, -1, 2, -2, 3, -3, 4]))
         case["surface"] = draw(st.integers(0, 3)) == 0
+        # ice on a grain-size group: the group number follows the prefix (#1CO); not next to a digit-first isotope symbol,
+        # where "group digits" and "symbol digits" would have two readings
+        if case["surface"] and not toks[0][0][0].isdigit():
+            case["sgroup"] = draw(st.sampled_from([0, 0, 0, 1, 2, 12]))
         if c["labels"] and draw(st.integers(0, 5)) == 0:
             case["label"] = draw(st.sampled_from(c["labels"]))
     if draw(st.integers(0, 5)) == 0:
@@ -140,8 +153,15 @@ def fixed_cases(tier):
     return out
 
 
+def prefix_of(case, c):
+    """Surface prefix as written: the prefix symbol followed by the grain-size group number (omitted for group 0)."""
+    if not case.get("surface"):
+        return ""
+    return c["kwargs"].get("surface_prefix", "#") + (str(case["sgroup"]) if case.get("sgroup") else "")
+
+
 def spell(case, c):
-    pre = c["kwargs"].get("surface_prefix", "#") if case["surface"] else ""
+    pre = prefix_of(case, c)
     q = case["charge"]
     ch = "+" * q if q > 0 else "-" * (-q)
     if case["kind"] == "grain":
@@ -162,7 +182,7 @@ def ambiguous(name, spans, c, case):
     """True if a configured multi-character symbol occurs in the name at a span that is not an intended token."""
     intended = {(a, b) for a, b, _ in spans}
     lab = case["label"]
-    pre = c["kwargs"].get("surface_prefix", "#") if case["surface"] else ""
+    pre = prefix_of(case, c)
     if lab:
         intended.add((len(pre), len(pre) + len(lab)))
     symbols = [s.replace("\\", "") for s in c["elements"] + c["pseudo"]] + [c["kwargs"].get("grain_symbol", "GRAIN"), c["kwargs"].get("surface_prefix", "#")]
@@ -173,7 +193,7 @@ def ambiguous(name, spans, c, case):
         i = core.find(s)
         while i >= 0:
             sp = (i, i + len(s))
-            if sp not in intended and not (case["surface"] and sp == (0, len(pre))):
+            if sp not in intended and not (case["surface"] and sp == (0, len(c["kwargs"].get("surface_prefix", "#")))):
                 # an occurrence that is not an intended token: harmless only if it lies inside a longer intended token
                 inside = any(a <= sp[0] and sp[1] <= b and (b - a) > len(s) for a, b in intended)
                 if not inside:
@@ -308,7 +328,7 @@ def check_case(case, tier):
         want_comp = {}
         for sym, n in case["tokens"]:
             want_comp[r(sym)] = want_comp.get(r(sym), 0) + n
-        pre = c["kwargs"].get("surface_prefix", "#") if case["surface"] else ""
+        pre = prefix_of(case, c)
         body = ""
         for (sym, n), ex in zip(case["tokens"], case["explicit1"] or [False] * len(case["tokens"])):
             body += r(sym) + (str(n) if (n != 1 or ex) else "")
@@ -323,12 +343,14 @@ def check_case(case, tier):
         failures.append((f"parse/charge/{key}", f"Species({name!r}).charge = {sp.charge} expected {want_q}"))
     if bool(sp.is_surface) != bool(case["surface"]):
         failures.append((f"parse/is-surface/{key}", f"Species({name!r}).is_surface = {sp.is_surface}"))
+    if case.get("surface") and case["kind"] == "mol" and sp.is_surface and sp.surface_group != case.get("sgroup", 0):
+        failures.append((f"parse/surface-group/{key}", f"Species({name!r}).surface_group = {sp.surface_group} expected {case.get('sgroup', 0)}"))
     if rep and sp.name != want_name:
         failures.append((f"parse/renamed/{key}", f"Species({name!r}).name = {sp.name!r} expected {want_name!r}"))
     if not rep and sp.name != name:
         failures.append((f"parse/name-changed/{key}", f"Species({name!r}).name = {sp.name!r}"))
     if case["kind"] == "mol":
-        pre = c["kwargs"].get("surface_prefix", "#") if case["surface"] else ""
+        pre = prefix_of(case, c)
         want_gas = want_name[len(pre):]
         if sp.gasname != want_gas:
             failures.append((f"parse/gasname/{key}", f"Species({name!r}).gasname = {sp.gasname!r} expected {want_gas!r}"))
